@@ -20,6 +20,7 @@ ShapesS  == {s \in AllShapes(3, 4, 16) : Prod(s) >= 4}
 ShapesW1 == {<<3>>, <<2, 3>>, <<3, 1>>, <<2, 1, 2>>}
 ShapesW2 == {<<4>>, <<3, 2>>}
 ShapesA  == {<<4>>, <<2, 2>>, <<3, 2>>, <<2, 1, 2>>}
+ShapesR  == {<<2, 3>>, <<2, 2, 2>>}
 Steps12  == {1, 2}
 Steps123 == {1, 2, 3}
 AllWrites == {"set", "apply", "applyslice", "copyfrom", "twoarray"}
